@@ -117,7 +117,69 @@ def execute(acc, name, op, model, payload, trace, hist):
     d = S.digest(val(res))
     trace.append((name, spec_d, hist, d))
     acc.count("executions:" + name)
+    # every Feature in the result is an object of the model that was passed to THIS execution
+    mine = purity.reachable_ids(model)
+    foreign = [x.name for x in feature_objects(res) if id(x) not in mine]
+    if foreign:
+        acc.fail("readonly:" + name, "result-is-about-the-argument", name, [], "foreign-objects",
+                 f"the result contains Feature objects that do not belong to the analysed model: {foreign[:5]}", payload)
+        good = False
+    # a result handed out earlier by this operation object is not changed by a later execution
+    prev = getattr(op, "_vf_prev", None)
+    if prev is not None:
+        pobj, pdig = prev
+        if S.digest(val(pobj)) != pdig:
+            acc.fail("readonly:" + name, "earlier-result-unchanged", name, [], "earlier-result-overwritten",
+                     "the object returned by an earlier execution changed during a later execution", payload)
+            good = False
+    try:
+        op._vf_prev = (res, d)
+    except Exception:  # noqa: BLE001
+        pass
+    # the caller may do what it likes with the returned container: the next execution is not affected
+    if hist.endswith(",0") or hist.count(",") == 0:
+        try:
+            if isinstance(res, list):
+                saved = list(res)
+                res.clear()
+            elif isinstance(res, dict):
+                saved = dict(res)
+                res.clear()
+            else:
+                saved = None
+            if saved is not None:
+                again = op.execute(model).get_result()
+                d2 = S.digest(val(again))
+                if isinstance(res, list):
+                    res.extend(saved) if again is not res else None
+                elif isinstance(res, dict):
+                    res.update(saved) if again is not res else None
+                if d2 != d:
+                    acc.fail("readonly:" + name, "result-depends-only-on-argument", name, [], "caller-mutation-leaks",
+                             "after the caller emptied the returned container, the next execution on the same model "
+                             "returned a different result", payload)
+                    good = False
+                op._vf_prev = (again, d2)
+        except Exception as e:  # noqa: BLE001
+            acc.fail("readonly:" + name, "no-exception", name, [], f"raises:{type(e).__name__}", str(e)[:200], payload)
+            good = False
     return good
+
+
+def feature_objects(x, out=None, depth=0):
+    out = [] if out is None else out
+    if depth > 4:
+        return out
+    if hasattr(x, "relations") and hasattr(x, "name"):
+        out.append(x)
+    elif isinstance(x, dict):
+        for k, v in x.items():
+            feature_objects(k, out, depth + 1)
+            feature_objects(v, out, depth + 1)
+    elif isinstance(x, (list, tuple, set, frozenset)):
+        for y in x:
+            feature_objects(y, out, depth + 1)
+    return out
 
 
 def check_trace(acc, trace, payload_of):
@@ -144,6 +206,18 @@ def run_histories(acc, desc):
     triples = [(a, b, c) for a in range(len(pool)) for b in range(len(pool)) for c in range(len(pool))]
     r.shuffle(triples)
     seqs += triples[: 216 if desc["pool"] <= 6 else 500]
+    # two models that are == (same names, relations, constraints) but differ in what equality ignores:
+    # abstract flags, attributes, order of children
+    import copy
+    twin = copy.deepcopy(pool[1])
+    for f in S.features(twin["root"]):
+        f["abstract"] = not f.get("abstract", False)
+        f["attrs"] = [{"name": "twin", "value": 1}]
+        for rel in f.get("rels", []):
+            rel["children"].reverse()
+    pool.append(twin)
+    digests.append(S.digest(twin))
+    seqs += [(1, len(pool) - 1), (len(pool) - 1, 1), (1, len(pool) - 1, 1)]
     # every shard process meets the models in a different order, so that state kept for the lifetime of the
     # process (class attributes, module-level caches) differs between the processes when a shared model is
     # analysed; the cross-process comparison in finalize() and the fresh-process baseline then see it
